@@ -567,10 +567,6 @@ impl Vault {
                 "_type",
                 TensorValue::Scalar(ScalarValue::String("vault_secret".into())),
             );
-            node.set(
-                "_secret_key",
-                TensorValue::Scalar(ScalarValue::String(key.to_string())),
-            );
             self.store
                 .put(&secret_node, node)
                 .map_err(|e| VaultError::StorageError(e.to_string()))?;
@@ -3397,10 +3393,6 @@ impl Vault {
         node.set(
             "_type",
             TensorValue::Scalar(ScalarValue::String("vault_secret".into())),
-        );
-        node.set(
-            "_secret_key",
-            TensorValue::Scalar(ScalarValue::String(secret.name.clone())),
         );
         self.store
             .put(new_secret_node, node)
